@@ -1,11 +1,12 @@
 """C05 - the command-line tools print exactly the right answer, or none (CLI contract clauses)"""
-from . import cli, io_rules
+from . import cli, io_rules, readers
 
 
 def run(ctx):
     cli.rule_problem_names(ctx)
     cli.rule_dispatch(ctx)
     cli.rule_encoder_selection(ctx)
+    readers.rule_iccma_guards(ctx)  # which files count as readable instances (`p af 0` included)
     cli.rule_errors_not_dropped(ctx)
     cli.rule_single_exit(ctx)
     cli.rule_usage_errors(ctx)
